@@ -245,6 +245,20 @@ type c20Expect struct {
 	Mutates bool
 }
 
+// c20OutName names an output line by the operation that produced it (for
+// structural signatures).
+func c20OutName(code string) string {
+	for _, n := range []string{"toConstantSized", "toVariableSized", "firstIndex", "containsKey", "contains", "forEachKey", "reverse", "filter", "concat", "slice", "map(", "keys", "values", "length", "remove", "insert", "for "} {
+		if strings.Contains(code, n) {
+			return strings.Trim(n, "( ")
+		}
+	}
+	if strings.Contains(code, "[") {
+		return "index-read"
+	}
+	return "result"
+}
+
 // c20Gen returns the Cadence code of op for model state m (operating on the
 // reference r, the by-value copy v, and appending results to out), the
 // expectation, and steps the model. bulk is the bulk size.
@@ -718,7 +732,13 @@ func c20DictOps() []string {
 
 // c20CompareOuts compares the output lines of an operation with the
 // expectation; returns "" or the kind of mismatch.
-func c20CompareOuts(m c20Model, got, want []string) string {
+func c20CompareOuts(m c20Model, got, want []string, code string) string {
+	var names []string
+	for _, line := range strings.Split(code, "\n") {
+		if strings.Contains(line, "out.append(") {
+			names = append(names, c20OutName(line))
+		}
+	}
 	if len(got) != len(want) {
 		return fmt.Sprintf("result-count(%d!=%d)", len(got), len(want))
 	}
@@ -763,6 +783,9 @@ func c20CompareOuts(m c20Model, got, want []string) string {
 			}
 		default:
 			if w != g {
+				if i < len(names) {
+					return "result-of-" + names[i]
+				}
 				return fmt.Sprintf("result-%d", i)
 			}
 		}
